@@ -316,9 +316,12 @@ impl Ctx {
         });
         match result {
             Ok(()) => {}
-            Err(TestError::Fail(_, _v)) => {
-                if let Some((case, fl)) = last_fail.borrow_mut().take() {
-                    self.add_failure(engine, case, &fl);
+            Err(TestError::Fail(reason, _v)) => {
+                match last_fail.borrow_mut().take() {
+                    Some((case, fl)) => self.add_failure(engine, case, &fl),
+                    // the case body itself panicked (proptest turns that into a failure):
+                    // that is a defect of the harness, never a verdict, and never silent
+                    None => self.inconclusive(format!("case body panicked in {}: {}", name, reason)),
                 }
             }
             Err(TestError::Abort(r)) => {
